@@ -14,11 +14,15 @@ def cross_tl(bases: List[Dict[str, Any]], tls: List[Any], quick_tl: Any = 3) -> 
     b = bases[0]
     small = bases[1] if len(bases) > 1 else bases[0]
     for tl in tls:
-        src = b if tl is None else small
-        d = dict(src)
-        d["id"] = f"{src['id']}+tl{tl}"
-        d["tl"] = tl
-        d["quick"] = tl == quick_tl
-        d["clock"] = True
-        out.append(d)
+        # the default limit (time_limit=None) is a function of the grid shape in some envs: exercise it
+        # on the default configuration and on the small (non-square) one
+        for src in (([b, small] if small is not b else [b]) if tl is None else [small]):
+            d = dict(src)
+            d["id"] = f"{src['id']}+tl{tl}"
+            d["tl"] = tl
+            d["quick"] = tl == quick_tl
+            d["clock"] = True
+            if tl is None and src is b and small is not b:
+                d["long_default"] = True
+            out.append(d)
     return out
